@@ -243,7 +243,7 @@ func cmdCheck(args []string) {
 			"solver_output": firstLines(v.Output, 40),
 		}
 		reproduced := false
-		if v.Status == "sat" && v.Model != nil && pc.ReplayFile != "" && !*noReplay && !v.Obl.WantSat {
+		if pc.ReplayFile != "" && !*noReplay && !v.Obl.WantSat {
 			writeJSON(rp, rep)
 			out, ok := runReplay(pc, id, rp)
 			rep["replay_output"] = out
